@@ -63,7 +63,7 @@ def graph_half(tier, v, stats, seed):
     for esm in ((False,) if tier == "quick" else (False, True)):
         sandbox = vlib.shm_dir("c11g")
         try:
-            units, obs, res, before = c03.export_cases(tier, esm, st, sandbox)
+            units, obs, res, before = c03.export_cases(tier, esm, st, sandbox, extra_dplaces=("file_noext", "file_other_ext"))
             recs, meta = [], []
             for u in units:
                 case = u.meta["case"]
